@@ -130,7 +130,7 @@ func SV_C02_more() {
 	tx := m.sign(false)
 	sv.Assume(m.e.validate(tx))
 	l0 := m.e.ledger()
-	resp := svDeliver(m.e.app, tx)
+	resp := m.e.deliver(tx)
 	l1 := m.e.ledger()
 	sv.Observe("code", resp.Code)
 	sv.Assert(l1.total("OLT").Cmp(l0.total("OLT")) <= 0, "no-value-created:OLT")
@@ -153,7 +153,7 @@ func svMoreC03(m *svMore) {
 	tx := m.sign(false)
 	sv.Assume(m.e.validate(tx))
 	l0 := m.e.ledger()
-	resp := svDeliver(m.e.app, tx)
+	resp := m.e.deliver(tx)
 	l1 := m.e.ledger()
 	sv.Observe("code", resp.Code)
 	for i := 0; i < m.e.n; i++ {
@@ -183,7 +183,7 @@ func svMoreC06(m *svMore) {
 	}
 	w0 := svBlockWrites(m.e.app)
 	l0 := m.e.ledger()
-	resp := svDeliver(m.e.app, tx)
+	resp := m.e.deliver(tx)
 	sv.Observe("code", resp.Code)
 	if resp.Code != 0 {
 		sv.Assert(svSameWrites(w0, svBlockWrites(m.e.app)), "failed-tx-leaves-no-write")
@@ -217,7 +217,7 @@ func svMoreC18Admitted(m *svMore) {
 	m.e.app.Context.check = storage.NewState(m.e.app.Context.chainstate).WithGas(&svGasCalc{used: storage.Gas(used)})
 	resp := svCheck(m.e.app, tx)
 	sv.Assume(resp.Code == 0)
-	d := svDeliver(m.e.app, tx)
+	d := m.e.deliver(tx)
 	sv.Cover(d.Code == 0, "delivered-ok")
 }
 
@@ -233,7 +233,7 @@ func SV_C18_more_unvalidated() {
 
 func svMoreC18Unvalidated(m *svMore) {
 	tx := m.sign(sv.Choice("nosig", 2) == 1)
-	d := svDeliver(m.e.app, tx)
+	d := m.e.deliver(tx)
 	sv.Cover(d.Code == 0, "delivered-ok")
 	sv.Cover(d.Code != 0, "delivered-fail")
 }
